@@ -19,6 +19,10 @@ MBOX = "sharepoint2text/parsing/extractors/mail/mbox_email_extractor.py"
 EML = "sharepoint2text/parsing/extractors/mail/eml_email_extractor.py"
 DT = "sharepoint2text/parsing/extractors/data_types.py"
 
+# canonical Date headers the running parse_email_message is probed with (theorem gen_date re-computes them with the model)
+DATE_PROBES = ["Fri, 05 Jan 2024 10:00:00 -0000", "Fri, 05 Jan 2024 10:00:00 +0000", "Thu, 29 Feb 2024 23:59:59 -0330",
+               "Sat, 31 Dec 1999 00:00:07 +0545", "Mon, 01 Jan 1900 00:00:00 -2359", "Wed, 01 Jan 0069 01:02:03 +0100", "Sun, 01 Jan 0068 01:02:03 -0000", "Tue, 30 Nov 9999 12:34:56 +1400"]
+
 
 def _func(mod: ast.Module, name: str, cls: str | None = None):
     body = mod.body
@@ -214,6 +218,43 @@ def gen_mail() -> str:
     codec_tables = [(name, [ord(bytes([b]).decode(name, "replace")) for b in range(256)])
                     for name in ("us-ascii", "iso-8859-1", "iso-8859-15", "windows-1252", "koi8-r")]
 
+    # --- the Date pipeline: what is bound to `date=` of EmailMetadata(...), what the names in it are at run time,
+    #     and what the running parse_email_message makes of four canonical Date headers
+    def _date_exprs(fn):
+        out = []
+        for stmt in _strip_doc(fn):
+            for n in ast.walk(stmt):
+                if isinstance(n, ast.Call) and isinstance(n.func, ast.Name) and n.func.id == "EmailMetadata":
+                    for k in n.keywords:
+                        if k.arg == "date":
+                            if isinstance(k.value, ast.Name):     # a local: every value ever assigned to it
+                                var = k.value.id
+                                found = []
+                                for st2 in _strip_doc(fn):
+                                    for a in ast.walk(st2):
+                                        if isinstance(a, ast.Assign) and any(isinstance(t, ast.Name) and t.id == var for t in a.targets):
+                                            found.append((a.lineno, ast.unparse(a.value)))
+                                        elif isinstance(a, (ast.AugAssign, ast.AnnAssign)) and isinstance(a.target, ast.Name) and a.target.id == var:
+                                            found.append((a.lineno, "<" + type(a).__name__ + "> " + ast.unparse(a)))
+                                out += [v for _, v in sorted(found)]
+                            else:
+                                out.append(ast.unparse(k.value))
+        return out or ["MISSING"]
+
+    date_exprs = [("mbox", _date_exprs(pem)), ("eml", _date_exprs(reml))]
+    date_callees = []
+    for name in ("parsedate_to_datetime", "decode_header_value"):
+        obj = getattr(mbox, name, None)
+        date_callees.append((name, f"{getattr(obj, '__module__', '?')}.{getattr(obj, '__qualname__', '?')}" if obj is not None else "MISSING"))
+    import email as _email
+    date_probe = []
+    for hdr in DATE_PROBES:
+        try:
+            msg = _email.message_from_bytes(("From: a@b.c\nDate: " + hdr + "\n\nx\n").encode("ascii"))
+            date_probe.append((hdr, mbox.parse_email_message(msg).metadata.date))
+        except Exception as exc:  # noqa: BLE001
+            date_probe.append((hdr, "RAISED " + type(exc).__name__))
+
     L = [HEADER.format(src=f"{MBOX}, {EML}, {DT}")]
     L.append("namespace S2T.Gen.Mail\n")
     L.append("/-- `MBOX_FROM_PATTERN.pattern` (bytes, shown as latin-1) and `.flags` -/")
@@ -261,6 +302,13 @@ def gen_mail() -> str:
     L.append("/-- `bytes([b]).decode(codec, 'replace')` for b = 0..255 of the running single-byte codecs -/")
     L.append("def codecTables : List (String × List Nat) := " + lean_list(
         f"({lean_str(n)}, [{', '.join(map(str, t))}])" for n, t in codec_tables) + "\n")
+    L.append("/-- the expression(s) bound to `date=` of the `EmailMetadata(...)` each extractor builds -/")
+    L.append("def dateExprs : List (String × List String) := " + lean_list(
+        f"({lean_str(t)}, [{', '.join(lean_str(x) for x in xs)}])" for t, xs in date_exprs) + "\n")
+    L.append("/-- what the names of the mbox date expression are in the running module: (name, module.qualname) -/")
+    L.append("def dateCallees : List (String × String) := " + lean_list(f"({lean_str(a)}, {lean_str(b)})" for a, b in date_callees) + "\n")
+    L.append("/-- (Date header, `parse_email_message(...).metadata.date` of the running code) -/")
+    L.append("def dateProbe : List (String × String) := " + lean_list(f"({lean_str(a)}, {lean_str(b)})" for a, b in date_probe) + "\n")
     L.append("/-- translator cross-check notes; must be empty -/")
     L.append("def notes : List String := " + lean_list(lean_str(n) for n in notes) + "\n")
     L.append("end S2T.Gen.Mail\n")
